@@ -63,6 +63,33 @@ def run(ctx):
             ctx.known("id=%s %s" % (k["fields"]["id"], k["text"]))
         else:
             ctx.note("known finding %s no longer reproduces (stale entry in KNOWN_FINDINGS.txt)" % k["fields"]["id"])
+    # 1b. layer S: the implementation-shaped iterator model refines the contract for every operation
+    # sequence up to the bound on a small universe, outside the two known-finding classes
+    # (spec/MoveIterSysMC.tla); inside them TLC finds the known findings as counterexamples
+    r = ctx.tlc("MoveIterSysMC", "MoveIterSysMC.cfg", workers=8, timeout=1200, name="sys-refines-contract")
+    if r["violated"] or r["errors"]:
+        ctx.violation("layer-S-model-does-not-refine-the-contract", {"tlc": (r["violated"] + r["errors"])[:3]},
+                      {"kind": "tlc", "module": "MoveIterSysMC", "cfg": "MoveIterSysMC.cfg"})
+    ctx.cov["states"] += r["distinct"]
+    ctx.cov["transitions"] += r["generated"]
+    os.remove(r["out_path"])
+    r2 = ctx.tlc("MoveIterSysMC", "MoveIterSysMC_unrestricted.cfg", workers=2, timeout=600, name="sys-known-class")
+    ctx.cov["steps"].append({"step": "layer S refinement", "restricted_states": r["distinct"],
+                             "unrestricted_counterexample_found": bool(r2["violated"])})
+    os.remove(r2["out_path"])
+    # 1c. conformance of layer S to the code (drift, not a verdict): the model is stepped with the
+    # recorded calls and compared with the implementation's own entry list after every call
+    trs = os.path.join(ctx.work, "sys.ndjson")
+    ctx.harness(["record-iter", "--mode", "systematic", "--sys", "--tags", "promo,ep", "--seed", ctx.seed, "--events", 8000, "--out", trs])
+    r3 = ctx.tlc("MoveIterSysTrace", "MoveIterSysTrace.cfg", env={"VERIF_TRACE": trs}, workers=1, deque=True, timeout=1200, name="sys-conformance")
+    drift = len(list(ctx.tlc_lines(r3["out_path"], "BAD")))
+    done3 = list(ctx.tlc_lines(r3["out_path"], "DONE"))
+    ctx.cov["model_drift"] += drift
+    ctx.cov["steps"].append({"step": "layer S conformance", "events": done3[0]["lines"] if done3 else 0, "drift": drift})
+    if drift:
+        ctx.note("layer S (MoveIterSys) no longer matches the implementation's entry list (%d events): model drift, not a violation" % drift)
+    os.remove(trs)
+    os.remove(r3["out_path"])
     # 2. generated histories
     quick = ctx.tier == "quick"
     plans = [
